@@ -219,6 +219,11 @@ func (x *Exec) interpreted(st *State, full string, args []Value) (Value, bool) {
 		return b(Eq(args[0].Term, "0"))
 	case "(time.Time).UTC", "(time.Time).Local":
 		return args[0], true
+	case "(time.Time).Truncate":
+		// integer instants (assumed at or after the zero Time): t - t mod d for d > 0
+		return x.mk(Ite(app(">", args[1].Term, "0"), app("-", args[0].Term, app("mod", args[0].Term, args[1].Term)), args[0].Term), args[0].Typ), true
+	case "(time.Time).Unix":
+		return intV(app("div", args[0].Term, "1000000000")), true
 	case "(*math/big.Int).Cmp":
 		return Value{}, false
 	}
